@@ -561,7 +561,7 @@ func Do(c *restful.Container, rec *Recorder, r model.ReqSpec, via, id string) (o
 			case <-grace.C:
 				o.Panic = "DID NOT RETURN within " + (3 * RequestWatchdog).String() + ": a goroutine is still in " + where
 				// the verdict stands; while rapid shrinks the case there is no need to wait that long again
-				RequestWatchdog, stuckPause = 3*time.Second, time.Second
+				RequestWatchdog, stuckPause = 2*time.Second, 500*time.Millisecond
 				return o
 			}
 		} else {
